@@ -4,5 +4,5 @@ CONSTANTS
   P = 2
   MaxBig = 0
   SplitLog = FALSE
-INVARIANTS NoAlias FreeDisjoint ContentOK PropAcceptsIdeal PNotVacuous Clean Export
+INVARIANTS NoAlias FreeDisjoint ContentOK PropAcceptsIdeal Clean Export
 CHECK_DEADLOCK FALSE
